@@ -23,7 +23,7 @@ import (
 // circuit/parser.go and types/parse.go that calls itself must carry an integer
 // parameter that it compares with a constant and passes on increased.
 func C14depth(p *load.Program, run *report.Run) {
-	run.Rule("recursive-parsers-depth-bounded", "every self-recursive function of the circuit and types packages reachable from ParseMPCLC/ParseBristol/types.Parse has an integer parameter that is compared with a constant and that every recursive call passes as parameter + positive constant")
+	run.Rule("recursive-parsers-depth-bounded", "every self-recursive function of the circuit and types packages reachable from ParseMPCLC/ParseBristol/types.Parse has an integer parameter that is compared with a constant and that every recursive call passes as parameter + positive constant — or keeps the depth in an integer field of its pointer receiver that is compared with a constant on a branch ending in an error and incremented before every recursive call")
 	var roots []*ssa.Function
 	for _, r := range [][2]string{{"circuit", "ParseMPCLC"}, {"circuit", "ParseBristol"}, {"types", "Parse"}, {"circuit", "Parse"}} {
 		if f, err := p.Func(r[0], r[1]); err == nil {
@@ -95,6 +95,92 @@ func C14depth(p *load.Program, run *report.Run) {
 				ok = true
 			}
 		}
+		if !ok && fn.Signature.Recv() != nil && len(fn.Params) > 0 {
+			// the depth is kept in an integer field of the pointer receiver: compared with a constant on a
+			// branch that ends in an error, and incremented before every recursive call
+			type fk struct{ field int }
+			fieldOf := func(v ssa.Value) (int, bool) {
+				ld, isLd := v.(*ssa.UnOp)
+				if !isLd || ld.Op != token.MUL {
+					return 0, false
+				}
+				fa, isFA := ld.X.(*ssa.FieldAddr)
+				if !isFA || fa.X != ssa.Value(fn.Params[0]) {
+					return 0, false
+				}
+				if b, isB := ld.Type().Underlying().(*types.Basic); !isB || b.Info()&types.IsInteger == 0 {
+					return 0, false
+				}
+				return fa.Field, true
+			}
+			bounded := map[int]bool{}
+			for _, b := range fn.Blocks {
+				iff, isIf := b.Instrs[len(b.Instrs)-1].(*ssa.If)
+				if !isIf {
+					continue
+				}
+				bo, isBO := iff.Cond.(*ssa.BinOp)
+				if !isBO {
+					continue
+				}
+				switch bo.Op {
+				case token.GTR, token.GEQ, token.LSS, token.LEQ:
+				default:
+					continue
+				}
+				for _, side := range [][2]ssa.Value{{bo.X, bo.Y}, {bo.Y, bo.X}} {
+					f, isF := fieldOf(side[0])
+					if _, isC := side[1].(*ssa.Const); isF && isC && (errorExit(b.Succs[0]) || errorExit(b.Succs[1])) {
+						bounded[f] = true
+					}
+				}
+			}
+			unbalanced := false
+			for f := range bounded {
+				all := true
+				for _, c := range rec {
+					inc := false
+					for _, x := range fn.Blocks {
+						for _, ins := range x.Instrs {
+							st, isSt := ins.(*ssa.Store)
+							if !isSt {
+								continue
+							}
+							fa, isFA := st.Addr.(*ssa.FieldAddr)
+							if !isFA || fa.X != ssa.Value(fn.Params[0]) || fa.Field != f {
+								continue
+							}
+							add, isAdd := st.Val.(*ssa.BinOp)
+							if !isAdd || add.Op != token.ADD {
+								continue
+							}
+							k, isC := add.Y.(*ssa.Const)
+							if g, isF := fieldOf(add.X); !isF || g != f || !isC || k.Int64() <= 0 {
+								continue
+							}
+							if (x == c.Block() && instrIndex(st) < instrIndex(c)) || (x != c.Block() && x.Dominates(c.Block())) {
+								inc = true
+								// the level is given back: no successful return is reachable from the increment
+								// without a decrement of the same field (a sibling argument is not one level deeper)
+								if !depthRestored(fn, st, f) {
+									unbalanced = true
+								}
+							}
+						}
+					}
+					if !inc {
+						all = false
+					}
+				}
+				if all {
+					ok = true
+				}
+			}
+			if ok && unbalanced {
+				run.Violate("recursive-parsers-depth-bounded", name+"/restore", p.Rel(fn.Pos()), "the nesting depth kept in the receiver is incremented for the members of an argument and not decremented again on the way to a successful return: every compound argument makes all later arguments look one level deeper, and a valid file with enough of them is rejected", nil)
+				continue
+			}
+		}
 		if ok {
 			run.OK("recursive-parsers-depth-bounded", name, p.Rel(fn.Pos()), fmt.Sprintf("%d recursive call(s) pass the depth on", len(rec)))
 		} else {
@@ -102,4 +188,55 @@ func C14depth(p *load.Program, run *report.Run) {
 		}
 	}
 	run.Floor("recursive-parser-functions", 2)
+}
+
+// depthRestored: from the increment inc of receiver field f, every path to a successful return passes a
+// store that decrements the same field.
+func depthRestored(fn *ssa.Function, inc *ssa.Store, f int) bool {
+	isDec := func(ins ssa.Instruction) bool {
+		st, ok := ins.(*ssa.Store)
+		if !ok {
+			return false
+		}
+		fa, ok := st.Addr.(*ssa.FieldAddr)
+		if !ok || fa.X != ssa.Value(fn.Params[0]) || fa.Field != f {
+			return false
+		}
+		bo, ok := st.Val.(*ssa.BinOp)
+		if !ok {
+			return false
+		}
+		k, isC := bo.Y.(*ssa.Const)
+		if !isC || k.Value == nil {
+			return false
+		}
+		return (bo.Op == token.SUB && k.Int64() > 0) || (bo.Op == token.ADD && k.Int64() < 0)
+	}
+	success := map[*ssa.BasicBlock]bool{}
+	for _, b := range successBlocks(fn) {
+		success[b] = true
+	}
+	seen := map[*ssa.BasicBlock]bool{}
+	var walk func(b *ssa.BasicBlock, from int) bool
+	walk = func(b *ssa.BasicBlock, from int) bool {
+		for i := from; i < len(b.Instrs); i++ {
+			if isDec(b.Instrs[i]) {
+				return true
+			}
+		}
+		if success[b] {
+			return false
+		}
+		for _, s := range b.Succs {
+			if seen[s] {
+				continue
+			}
+			seen[s] = true
+			if !walk(s, 0) {
+				return false
+			}
+		}
+		return true
+	}
+	return walk(inc.Block(), instrIndex(inc)+1)
 }
